@@ -103,6 +103,13 @@ class Walker:
                     mod_expr = b.value if isinstance(b, ast.AugAssign) else b.value
                     self.moduli.append((name, norm(mod_expr), s))
                     return False
+            # if d < 0: t = d + n / else: t = d     (statement form of the conditional expression)
+            if len(s.body) == 1 and len(s.orelse) == 1 and isinstance(s.body[0], ast.Assign) and isinstance(s.orelse[0], ast.Assign) \
+                    and len(s.body[0].targets) == 1 and isinstance(s.body[0].targets[0], ast.Name) and norm(s.body[0].targets[0]) == norm(s.orelse[0].targets[0]):
+                tern = ast.copy_location(ast.IfExp(test=s.test, body=s.body[0].value, orelse=s.orelse[0].value), s)
+                if any(self.normalising_value(dn, tern) for dn in list(self.state)):
+                    self.assign(ast.copy_location(ast.Assign(targets=[s.body[0].targets[0]], value=tern), s))
+                    return False
             self.expr(s.test)
             st0, k0 = dict(self.state), {k: set(v) for k, v in self.kinds.items()}
             self.refine(s.test, True)
